@@ -287,6 +287,17 @@ def gen_cases(run, per_class):
                         key = w
                 site_hist[key] = site_hist.get(key, 0) + 1
         # unknown top-level type
+    # the witnesses of the two defect variants (Proofs/C04Witness.v), always run
+    ident = {"type": "identity", "spec_version": "2.1", "id": "identity--311b2d2d-f010-4473-83ec-1edf84858f4c",
+             "created": "2020-01-01T00:00:00.000Z", "modified": "2020-01-01T00:00:00.000Z", "name": "a",
+             "custom_properties": {"x_foo": 1}}
+    cases.append({"route": "parse", "cid": "2.1/Identity", "data": ident, "custom": True,
+                  "site": "custom_properties key at <top> (2.1/Identity)"})
+    sight = {"type": "sighting", "spec_version": "2.1", "id": "sighting--311b2d2d-f010-4473-83ec-1edf84858f4c",
+             "created": "2020-01-01T00:00:00.000Z", "modified": "2020-01-01T00:00:00.000Z",
+             "sighting_of_ref": "marking-definition--613f2e26-407d-48c7-9eca-b8e91df99dc9"}
+    cases.append({"route": "parse", "cid": "2.1/Sighting", "data": sight, "custom": False,
+                  "site": "reference to registered type marking-definition at sighting_of_ref"})
     for ver in ("2.0", "2.1"):
         d = {"type": "x-unregistered-type", "id": "x-unregistered-type--" + U1, "created": "2016-01-01T00:00:00.000Z",
              "modified": "2016-01-01T00:00:00.000Z", "name": "n"}
@@ -373,6 +384,8 @@ def check(run):
 
 
 def replay(payload):
+    if "replay" not in payload:
+        return replay_unlocated(payload)
     r = payload["replay"]
     case = r["case"]
     o = common.run_impl("c04_impl", [case], procs=1)[0]
@@ -386,4 +399,27 @@ def replay(payload):
         print("VIOLATION property=C04 replay=(given)")
         return 1
     print("no violation on this input")
+    return 0
+
+
+def replay_unlocated(payload):
+    """A replay file written when something no longer checked but no failing input was found: it names the
+    obligation / correspondence; the inputs of the stored disagreements are run through the property oracle."""
+    bad = 0
+    for b in payload.get("no_longer_checks", []):
+        print("no longer checks: %s %s" % (b.get("kind"), b.get("name")))
+        for ent in (b.get("detail") or {}).get("first", []) or []:
+            c = ent.get("case") or {}
+            if "data" not in c:
+                continue
+            case = {"route": "parse" if c.get("op", c.get("route")) == "parse" else "construct", "cid": c["cid"], "data": c["data"],
+                    "custom": False, "site": "stored disagreement: " + str(c.get("site"))}
+            o = common.run_impl("c04_impl", [case], procs=1)[0]
+            print("  %s %s: model %s / implementation %s; oracle failures: %s" % (
+                case["cid"], case["site"], ent.get("model"), ent.get("impl"), [f["kind"] for f in o.get("fails", [])]))
+            bad += len(o.get("fails", []))
+    if bad:
+        print("VIOLATION property=C04 replay=(given)")
+        return 1
+    print("no failing input among the stored disagreements (the file records what stopped checking)")
     return 0
